@@ -1,372 +1,42 @@
-// c20corr: runs sarama/mocks producers on generated scripts and writes the observations as Coq
-// cases for SV.C20.Corr, plus the direct property oracle (monitor) verdict per case.
 package main
 
 import (
-	"errors"
 	"flag"
-	"fmt"
 	"math/rand"
-	"strconv"
-	"strings"
-	"sync"
-
-	"github.com/Shopify/sarama"
-	"github.com/Shopify/sarama/mocks"
 
 	cf "verifharness/internal/coqfmt"
 )
 
-type exp struct {
-	Succ bool  `json:"succ"`
-	Err  int64 `json:"err"`
-	Chk  int   `json:"chk"` // 0 none 1 pass 2 fail
-	CErr int64 `json:"cerr"`
-}
-type msg struct {
-	ID    int64 `json:"id"`
-	Topic int   `json:"topic"`
-	POk   bool  `json:"pok"`
-	P     int64 `json:"p"`
-	PErr  int64 `json:"perr"`
-}
-type script struct {
-	Mode      string          `json:"mode"` // async | sync
-	RetSucc   bool            `json:"ret_succ"`
-	RetErr    bool            `json:"ret_err"`
-	DefParts  int32           `json:"def_parts"`
-	Overrides map[string]int32 `json:"overrides"`
-	Exps      []exp           `json:"exps"`
-	Msgs      []msg           `json:"msgs"`
-}
-
-type reporter struct {
-	mu   sync.Mutex
-	logs []string
-}
-
-func (r *reporter) Errorf(f string, a ...interface{}) {
-	r.mu.Lock()
-	r.logs = append(r.logs, fmt.Sprintf(f, a...))
-	r.mu.Unlock()
-}
-
-func classify(s string) string {
-	switch {
-	case strings.HasPrefix(s, "No more expectation"):
-		return "RepNoExpectation"
-	case strings.HasPrefix(s, "Partitioner returned"):
-		return "RepPartitioner"
-	case strings.HasPrefix(s, "Check function returned"):
-		return "RepChecker"
-	case strings.HasPrefix(s, "Expected to exhaust all expectations, but "):
-		n := strings.Fields(strings.TrimPrefix(s, "Expected to exhaust all expectations, but "))[0]
-		return "(RepLeftOver " + n + ")"
-	case strings.HasPrefix(s, "Insufficient expectations"):
-		return "RepInsufficient"
-	}
-	return "(RepUnknown)" // does not type-check in Coq on purpose: an unknown report is a broken tie
-}
-
-func errID(e error) int64 {
-	if e == nil {
-		return 0
-	}
-	s := e.Error()
-	if strings.HasPrefix(s, "e") {
-		if v, err := strconv.ParseInt(s[1:], 10, 64); err == nil {
-			return v
-		}
-	}
-	if strings.HasPrefix(s, "No more expectations set on mock") {
-		return -1
-	}
-	return -999
-}
-
-// scripted partitioner: outcome is carried by the message's Metadata; records the partition count offered
-type scriptedPartitioner struct {
-	seen *[]int64
-	mu   *sync.Mutex
-}
-
-func (p scriptedPartitioner) Partition(m *sarama.ProducerMessage, n int32) (int32, error) {
-	p.mu.Lock()
-	*p.seen = append(*p.seen, int64(n))
-	p.mu.Unlock()
-	sm := m.Metadata.(msg)
-	if sm.POk {
-		return int32(sm.P), nil
-	}
-	return -1, fmt.Errorf("e%d", sm.PErr)
-}
-func (p scriptedPartitioner) RequiresConsistency() bool { return false }
-
-func topicName(i int) string { return fmt.Sprintf("t%d", i) }
-
-type obsAsync struct {
-	Succ    [][3]int64 `json:"succ"`
-	Errs    [][2]int64 `json:"errs"`
-	Reports []string   `json:"reports"`
-	NP      []int64    `json:"np"`
-}
-
-func runAsync(s script) obsAsync {
-	rep := &reporter{}
-	var seen []int64
-	var mu sync.Mutex
-	cfg := sarama.NewConfig()
-	cfg.Producer.Return.Successes = s.RetSucc
-	cfg.Producer.Return.Errors = s.RetErr
-	cfg.ChannelBufferSize = 64
-	cfg.Producer.Partitioner = func(string) sarama.Partitioner { return scriptedPartitioner{&seen, &mu} }
-	mp := mocks.NewAsyncProducer(rep, cfg)
-	mp.SetDefaultPartitions(s.DefParts)
-	mp.SetPartitions(s.Overrides)
-	addExps(s, func(c mocks.MessageChecker, succ bool, err error) {
-		if succ {
-			mp.ExpectInputWithMessageCheckerFunctionAndSucceed(c)
-		} else {
-			mp.ExpectInputWithMessageCheckerFunctionAndFail(c, err)
-		}
-	})
-	var o obsAsync
-	var wg sync.WaitGroup
-	wg.Add(2)
-	go func() {
-		defer wg.Done()
-		for m := range mp.Successes() {
-			o.Succ = append(o.Succ, [3]int64{m.Metadata.(msg).ID, int64(m.Partition), m.Offset})
-		}
-	}()
-	go func() {
-		defer wg.Done()
-		for e := range mp.Errors() {
-			o.Errs = append(o.Errs, [2]int64{e.Msg.Metadata.(msg).ID, errID(e.Err)})
-		}
-	}()
-	for _, m := range s.Msgs {
-		mp.Input() <- &sarama.ProducerMessage{Topic: topicName(m.Topic), Metadata: m, Partition: -7}
-	}
-	_ = mp.Close()
-	wg.Wait()
-	for _, l := range rep.logs {
-		o.Reports = append(o.Reports, classify(l))
-	}
-	o.NP = seen
-	return o
-}
-
-func addExps(s script, add func(c mocks.MessageChecker, succ bool, err error)) {
-	for _, e := range s.Exps {
-		e := e
-		var c mocks.MessageChecker
-		switch e.Chk {
-		case 1:
-			c = func(*sarama.ProducerMessage) error { return nil }
-		case 2:
-			c = func(*sarama.ProducerMessage) error { return fmt.Errorf("e%d", e.CErr) }
-		}
-		if e.Succ {
-			add(c, true, nil)
-		} else {
-			add(c, false, fmt.Errorf("e%d", e.Err))
-		}
-	}
-}
-
-type syncRet struct {
-	RetP, Off, MsgP, Err int64
-	Reports              []string
-}
-type obsSync struct {
-	Rets  []syncRet `json:"rets"`
-	Close []string  `json:"close"`
-	NP    []int64   `json:"np"`
-}
-
-func runSync(s script) obsSync {
-	rep := &reporter{}
-	var seen []int64
-	var mu sync.Mutex
-	cfg := sarama.NewConfig()
-	cfg.Producer.Return.Successes = true
-	cfg.Producer.Partitioner = func(string) sarama.Partitioner { return scriptedPartitioner{&seen, &mu} }
-	sp := mocks.NewSyncProducer(rep, cfg)
-	sp.SetDefaultPartitions(s.DefParts)
-	sp.SetPartitions(s.Overrides)
-	addExps(s, func(c mocks.MessageChecker, succ bool, err error) {
-		if succ {
-			sp.ExpectSendMessageWithMessageCheckerFunctionAndSucceed(c)
-		} else {
-			sp.ExpectSendMessageWithMessageCheckerFunctionAndFail(c, err)
-		}
-	})
-	var o obsSync
-	for _, m := range s.Msgs {
-		pm := &sarama.ProducerMessage{Topic: topicName(m.Topic), Metadata: m, Partition: -7}
-		before := len(rep.logs)
-		p, off, err := sp.SendMessage(pm)
-		r := syncRet{RetP: int64(p), Off: off, MsgP: int64(pm.Partition), Err: errID(err)}
-		for _, l := range rep.logs[before:] {
-			r.Reports = append(r.Reports, classify(l))
-		}
-		o.Rets = append(o.Rets, r)
-	}
-	before := len(rep.logs)
-	_ = sp.Close()
-	for _, l := range rep.logs[before:] {
-		o.Close = append(o.Close, classify(l))
-	}
-	o.NP = seen
-	return o
-}
-
-// ---------- printing ----------
-func coqExps(es []exp) string {
-	var it []string
-	for _, e := range es {
-		res := "RSucc"
-		if !e.Succ {
-			res = cf.App("RFail", cf.Z(e.Err))
-		}
-		chk := [...]string{"CNone", "CPass", ""}[min(e.Chk, 2)]
-		if e.Chk == 2 {
-			chk = cf.App("CFail", cf.Z(e.CErr))
-		}
-		it = append(it, fmt.Sprintf("{| e_res := %s; e_chk := %s |}", res, chk))
-	}
-	return cf.List(it)
-}
-func min(a, b int) int {
-	if a < b {
-		return a
-	}
-	return b
-}
-func coqMsgs(ms []msg) string {
-	var it []string
-	for _, m := range ms {
-		pr := cf.App("PErr", cf.Z(m.PErr))
-		if m.POk {
-			pr = cf.App("POk", cf.Z(m.P))
-		}
-		it = append(it, fmt.Sprintf("(%d, {| m_id := %s; m_pres := %s |})", m.Topic, cf.Z(m.ID), pr))
-	}
-	return cf.List(it)
-}
-func coqOverrides(o map[string]int32) string {
-	var it []string
-	for i := 0; i < 4; i++ {
-		if n, ok := o[topicName(i)]; ok {
-			it = append(it, fmt.Sprintf("(%d, %s)", i, cf.Z(int64(n))))
-		}
-	}
-	return cf.List(it)
-}
-
-func gen(r *rand.Rand, mode string) script {
-	s := script{Mode: mode, RetSucc: r.Intn(4) != 0, RetErr: r.Intn(4) != 0, DefParts: int32(1 + r.Intn(40)), Overrides: map[string]int32{}}
-	for i := 0; i < 3; i++ {
-		if r.Intn(3) == 0 {
-			s.Overrides[topicName(i)] = int32(1 + r.Intn(9))
-		}
-	}
-	ne, nm := r.Intn(6), r.Intn(7)
-	if r.Intn(3) == 0 {
-		ne = nm
-	}
-	for i := 0; i < ne; i++ {
-		s.Exps = append(s.Exps, exp{Succ: r.Intn(3) != 0, Err: int64(100 + r.Intn(5)), Chk: r.Intn(3), CErr: int64(200 + r.Intn(5))})
-	}
-	for i := 0; i < nm; i++ {
-		s.Msgs = append(s.Msgs, msg{ID: int64(i + 1), Topic: r.Intn(3), POk: r.Intn(5) != 0, P: int64(r.Intn(9)), PErr: int64(300 + r.Intn(5))})
-	}
-	return s
-}
-
-// monitor: the property stated directly on the observation (independent of the Coq model)
-func monitorAsync(s script, o obsAsync) *cf.Monitor {
-	count := map[int64]int{}
-	for _, x := range o.Succ {
-		count[x[0]]++
-	}
-	for _, x := range o.Errs {
-		count[x[0]]++
-	}
-	for i, m := range s.Msgs {
-		if count[m.ID] > 1 {
-			return &cf.Monitor{Signature: "async:two-outcomes", What: fmt.Sprintf("message %d got %d terminal events", m.ID, count[m.ID])}
-		}
-		if i < len(s.Exps) && s.RetSucc && s.RetErr && count[m.ID] != 1 {
-			return &cf.Monitor{Signature: "async:no-outcome", What: fmt.Sprintf("message %d with an expectation got %d terminal events", m.ID, count[m.ID])}
-		}
-	}
-	last := int64(0)
-	for _, x := range o.Succ {
-		if x[2] <= last {
-			return &cf.Monitor{Signature: "async:offsets-not-increasing", What: fmt.Sprintf("offset %d after %d", x[2], last)}
-		}
-		last = x[2]
-	}
-	return nil
-}
-
 func main() {
 	out := flag.String("out", ".", "output directory")
 	seed := flag.Int64("seed", 1, "seed")
-	n := flag.Int("n", 600, "number of random scripts per mode")
+	n := flag.Int("n", 600, "number of random scripts per mock")
 	flag.Parse()
 	r := rand.New(rand.NewSource(*seed))
-	wa := &cf.Writer{Dir: *out, Prefix: "cases_async", Imports: "From SV Require Import C20.Model C20.Corr.", CaseType: "acase", MismatchFn: "mismatches_async", ShardSize: 400}
-	ws := &cf.Writer{Dir: *out, Prefix: "cases_sync", Imports: "From SV Require Import C20.Model C20.Corr.", CaseType: "scase", MismatchFn: "mismatches_sync", ShardSize: 400}
-	// corpus first: the checker-on-success witness (fixed defect), leftovers, no expectation
-	corpus := []script{
-		{Mode: "async", RetSucc: true, RetErr: true, DefParts: 32, Overrides: map[string]int32{}, Exps: []exp{{Succ: true, Chk: 2, CErr: 201}}, Msgs: []msg{{ID: 1, POk: true, P: 3}}},
-		{Mode: "async", RetSucc: true, RetErr: true, DefParts: 32, Overrides: map[string]int32{"t1": 4}, Exps: []exp{{Succ: true}, {Succ: false, Err: 101}, {Succ: true}}, Msgs: []msg{{ID: 1, Topic: 1, POk: true, P: 2}}},
-		{Mode: "async", RetSucc: true, RetErr: true, DefParts: 32, Overrides: map[string]int32{}, Exps: nil, Msgs: []msg{{ID: 1, POk: true, P: 2}, {ID: 2, POk: false, PErr: 301}}},
-	}
-	for i := 0; i < *n+len(corpus); i++ {
-		var s script
-		if i < len(corpus) {
-			s = corpus[i]
-		} else {
-			s = gen(r, "async")
-		}
-		o := runAsync(s)
-		var su, er []string
-		for _, x := range o.Succ {
-			su = append(su, fmt.Sprintf("(%s, %s, %s)", cf.Z(x[0]), cf.Z(x[1]), cf.Z(x[2])))
-		}
-		for _, x := range o.Errs {
-			er = append(er, fmt.Sprintf("(%s, %s)", cf.Z(x[0]), cf.Z(x[1])))
-		}
-		term := fmt.Sprintf("{| ac_cfg := {| ret_succ := %s; ret_err := %s |}; ac_def := %d; ac_over := %s; ac_exps := %s; ac_msgs := %s; ac_succ := %s; ac_errs := %s; ac_reports := %s; ac_np := %s |}",
-			cf.Bool(s.RetSucc), cf.Bool(s.RetErr), s.DefParts, coqOverrides(s.Overrides), coqExps(s.Exps), coqMsgs(s.Msgs), cf.List(su), cf.List(er), cf.List(o.Reports), cf.ZList(o.NP))
-		wa.Add(term, cf.Sidecar{Case: map[string]interface{}{"script": s, "observed": o}, Kind: "async", Nontrivial: len(s.Msgs) > 0 && len(s.Exps) > 0, Monitor: monitorAsync(s, o)})
+	imp := "From SV Require Import C20.Model C20.Corr."
+	wa := &cf.Writer{Dir: *out, Prefix: "cases_async", Imports: imp, CaseType: "acase", MismatchFn: "mismatches_async", ShardSize: 400}
+	ws := &cf.Writer{Dir: *out, Prefix: "cases_sync", Imports: imp, CaseType: "scase", MismatchFn: "mismatches_sync", ShardSize: 400}
+	wc := &cf.Writer{Dir: *out, Prefix: "cases_consumer", Imports: "From SV Require Import C20.ConsumerModel C20.ConsumerCorr.", CaseType: "ccase", MismatchFn: "mismatches_consumer", ShardSize: 300}
+	// corpus first (past / minimised witnesses), then the random scripts
+	for _, s := range asyncCorpus() {
+		wa.Add(asyncCase(s))
 	}
 	for i := 0; i < *n; i++ {
-		s := gen(r, "sync")
-		o := runSync(s)
-		var rets []string
-		for _, x := range o.Rets {
-			rets = append(rets, fmt.Sprintf("(%s, %s, %s, %s, %s)", cf.Z(x.RetP), cf.Z(x.Off), cf.Z(x.MsgP), cf.Z(x.Err), cf.List(x.Reports)))
-		}
-		term := fmt.Sprintf("{| sc_def := %d; sc_over := %s; sc_exps := %s; sc_msgs := %s; sc_rets := %s; sc_close := %s; sc_np := %s |}",
-			s.DefParts, coqOverrides(s.Overrides), coqExps(s.Exps), coqMsgs(s.Msgs), cf.List(rets), cf.List(o.Close), cf.ZList(o.NP))
-		var mon *cf.Monitor
-		lastOff := int64(0)
-		for _, x := range o.Rets {
-			if x.Err == 0 {
-				if x.Off <= lastOff {
-					mon = &cf.Monitor{Signature: "sync:offsets-not-increasing", What: fmt.Sprintf("offset %d after %d", x.Off, lastOff)}
-				}
-				lastOff = x.Off
-			}
-		}
-		ws.Add(term, cf.Sidecar{Case: map[string]interface{}{"script": s, "observed": o}, Kind: "sync", Nontrivial: len(s.Msgs) > 0 && len(s.Exps) > 0, Monitor: mon})
+		wa.Add(asyncCase(genAsync(r)))
+	}
+	for _, s := range syncCorpus() {
+		ws.Add(syncCase(s))
+	}
+	for i := 0; i < *n; i++ {
+		ws.Add(syncCase(genSync(r)))
+	}
+	for _, s := range consumerCorpus() {
+		wc.Add(consumerCase(s))
+	}
+	for i := 0; i < *n; i++ {
+		wc.Add(consumerCase(genConsumer(r)))
 	}
 	wa.Close()
 	ws.Close()
-	_ = errors.New
+	wc.Close()
 }
